@@ -74,6 +74,13 @@ CHECKS = {
              "scheduler knows when no thread can run while some are unfinished (deadlock / lost wake-up) and when a call "
              "exceeds the step bound; spurious wake-ups are injected.",
         note="Bounded liveness (step bound); close concurrent with other calls on the handle is outside the contract."),
+    "C10": dict(
+        cat="exploration", engine="racemon", design="3/C10",
+        technique="sanitizers: ThreadSanitizer (report blocks counted from logs) and ASan/UBSan on native multi-thread stress with injected delays",
+        text="6..8 native threads drive every public entry point of one handle (plus a second handle sharing the block "
+             "cache) with minimum table cache and a small write buffer; seed-driven delays at libc I/O calls and inside "
+             "skiplist inserts; ThreadSanitizer and ASan/UBSan are the oracle; the monitor reports which API pairs overlapped.",
+        note="Only executed access pairs are judged; non-default ports (no atomics, Windows) are outside this build."),
     "C12": dict(
         cat="fault_enumeration", engine="faultmon+iomon", design="3/C12",
         technique="runtime monitoring: fault injection at the libc boundary, statuses + post-fault recovery checked against the acknowledged history (+ASan/UBSan pass)",
